@@ -160,6 +160,9 @@ pub struct Run<'c, 's> {
     pub steps: u32,
     pub draining: bool,
     pub any_fault: bool,
+    /// byte values present in this run (for coincidence-biased draws)
+    pub dict: Vec<u8>,
+    pub dict_pos: usize,
 }
 
 pub struct RunOut {
@@ -240,7 +243,21 @@ impl<'c, 's> Run<'c, 's> {
             steps: 0,
             draining: false,
             any_fault: false,
+            dict: Vec::new(),
+            dict_pos: 0,
         };
+        for nc in cfg.nodes.iter() {
+            r.dict.push(nc.addr);
+            r.dict.push(nc.addr << 1);
+            r.dict.push((nc.addr << 1) | 1);
+            r.dict.push(nc.types.len() as u8);
+            r.dict.push(nc.vplain.len() as u8);
+            if let Some(t) = nc.types.last() {
+                r.dict.push(*t);
+            }
+        }
+        r.dict.extend_from_slice(&[0x0F, 0x01, 0xC8, 0x05, 0x06, 0x7E, 0x7F]);
+        r.dict_pos = r.dict.len();
         if r.trace.is_some() {
             let mut s = format!(
                 "config: {} nodes, bus {} us/byte, fault_free={}, snoop={}, max_outstanding={}, timeout={}us, retries={}",
@@ -532,7 +549,7 @@ impl<'c, 's> Run<'c, 's> {
             let k = 1 + self.ch.choose(n.min(6) as u32) as usize;
             let at = self.ch.choose((n - k + 1) as u32) as usize;
             for j in 0..k {
-                let v = self.ch.byte();
+                let v = self.vbyte();
                 self.frames[fi].bytes[at + j] = v;
             }
             self.ev("fault.garble", &[fi as u64, at as u64, k as u64], &[]);
